@@ -106,7 +106,7 @@ class Search:
         findings; returns a finding key or None (fresh violation)"""
         R, rb = self.R, self.rb
         if uses_tree(cfg):
-            return "F19:tree-restart-not-bitwise"
+            return "C05-N2:tree-restart-not-bitwise"
 
         def rerun(fix_orig=None, fix_rest=None):
             a, _ = R.load_bytes(a0_bytes)   # both from the same bytes, so that only the repair differs
@@ -122,7 +122,7 @@ class Search:
         elif cfg["integrator"] == "mercurius" and self.peek(a, "ri_mercurius.recalculate_r_crit_this_timestep") != \
                 self.peek(r, "ri_mercurius.recalculate_r_crit_this_timestep"):
             self.poke(r, "ri_mercurius.recalculate_r_crit_this_timestep", 1)
-            key = "F18:mercurius-recalculate_r_crit-not-persisted"
+            key = "C05-N1:mercurius-recalculate_r_crit-not-persisted"
         elif cfg["integrator"] == "trace" and cfg.get("collision"):
             # control: is the real code deterministic at all from this state?
             b = R.save(a)
@@ -130,15 +130,15 @@ class Search:
             r2, _ = R.load_bytes(b); attach(r2, cfg)
             advance(r1, k); advance(r2, k)
             if R.first_difference(self.semantic(R.persisted_view(r1)), self.semantic(R.persisted_view(r2))) is not None:
-                return "F24:trace-collision-nondeterministic"
+                return "C05-N6:trace-collision-nondeterministic"
             n = self.peek(a, "N_allocated_collisions", ctypes.c_int)
             if n == 0:
-                return "F25:trace-collision-step-depends-on-transient-arrays"
+                return "C05-N7:trace-collision-step-depends-on-transient-arrays"
             ctypes.c_void_p.from_address(ctypes.addressof(r) + self.off("collisions")).value = self.libc.malloc(n * 256)
             self.poke(r, "N_allocated_collisions", n, ctypes.c_int)
             advance(a, k); advance(r, k)
             d2 = R.first_difference(self.semantic(R.persisted_view(a)), self.semantic(R.persisted_view(r)))
-            return "F22:trace-reads-collision-allocation-counter" if d2 is None else "F25:trace-collision-step-depends-on-transient-arrays"
+            return "C05-N4:trace-reads-collision-allocation-counter" if d2 is None else "C05-N7:trace-collision-step-depends-on-transient-arrays"
         elif cfg["integrator"] == "bs" or (cfg["integrator"] == "trace"):
             # F9b: the loader's first step re-creates the ODE and forces first_or_last_step=1; do the same to the original
             self.poke(a, "ri_bs.first_or_last_step", 1, ctypes.c_int)
@@ -203,7 +203,7 @@ class Search:
             return
         d3 = R.first_difference(self.semantic(va), self.semantic(vr))
         if d3 is None:
-            c.violation("F20:whfast-p_jh-uninitialised-bytes-persisted",
+            c.violation("C05-N3:whfast-p_jh-uninitialised-bytes-persisted",
                         "after continuing, the persisted ri_whfast.p_jh differs only in members WHFast never initialises (%s)" % d2,
                         {"cfg": cfg, "path": path, "difference": d2})
             return
@@ -237,7 +237,7 @@ def correspondence(c, exe, rb, info, R, cfgs):
             c.corr_break("stream framing differs from the format description (header 64, field header 16, zero trailer 12)", {"cfg": cfg})
         lines.append("DEC " + fields_line(f)); meta.append(("DEC", cfg, b, h, t))
         if uses_tree(cfg) and not forked(lambda _: bool(R.load_bytes(b)), None)[0]:
-            continue     # F23: loading this state crashes (reported by the search); no LOADI line
+            continue     # C05-N5: loading this state crashes (reported by the search); no LOADI line
         r, _ = R.load_bytes(b)
         b2 = R.save(r)
         lines.append("LOADI %d %s | %s" % (R.addr(r), fields_line(ff), fields_line(f))); meta.append(("LOADI", cfg, b2, uses_tree(cfg)))
@@ -337,7 +337,7 @@ def member_sweep(c, S, info, R, rb):
             res["lost_finding"] += 1
             reason = info["transient"][p]["reason"]
             fk = {"ri_trace.peri_mode": "F9a:trace-peri_mode-not-persisted",
-                  "ri_mercurius.recalculate_r_crit_this_timestep": "F18:mercurius-recalculate_r_crit-not-persisted"}.get(p, "gap:" + p)
+                  "ri_mercurius.recalculate_r_crit_this_timestep": "C05-N1:mercurius-recalculate_r_crit-not-persisted"}.get(p, "gap:" + p)
             c.violation(fk, "user-settable member %s is not persisted: set before save, default after load" % p, {"member": p, "reason": reason})
         elif cls is None:
             c.violation("unpersisted-member:" + p, "member %s is neither persisted nor classified transient and does not survive save+load" % p, {"member": p})
@@ -416,15 +416,15 @@ def heap_sweep(c, S, info, R, rb):
 def targeted(c, S, rb, rng, thorough):
     """scenarios aimed at the members the coverage theorem lists as not persisted but read by an integrator"""
     cases = []
-    # F18: MERCURIUS request flag set by the user right before the save
+    # C05-N1: MERCURIUS request flag set by the user right before the save
     for sa in (1, 3):
         cases.append(({"integrator": "mercurius", "o": {"safe_mode": 1}, "system": "close", "save_after": sa, "edit": "mercurius_rcrit"}, "buffer", 9))
     # TRACE after physical collisions (N_allocated_collisions != 0 at the save point)
-    for i in range(24 if thorough else 8):
+    for i in range(48 if thorough else 8):
         cases.append(({"integrator": "trace", "o": {}, "system": "swarm", "seed": int(rng.next() % 100000), "collision": "direct",
                        "save_after": 150}, "buffer", 250))
     # BS: save points where the error estimate converges early after the tolerances were loosened (F9b)
-    for i in range(80 if thorough else 16):
+    for i in range(400 if thorough else 24):
         cases.append(({"integrator": "bs", "o": {"eps_abs": 10 ** -rng.uniform(9, 13), "eps_rel": 10 ** -rng.uniform(9, 13)},
                        "system": rng.choice(["planets", "close", "peri"]), "save_after": rng.randint(1, 6),
                        "edit": "bs_loosen", "edit_eps": 10 ** -rng.uniform(3, 6)}, "buffer", 6))
@@ -514,7 +514,7 @@ def run_cases(c, S, cases, nproc=8, chunk=12):
                 finish(start([one]))
         else:
             cfg, path, k = sub[0]
-            key = "F23:load-crash-tree-flagged-particles" if uses_tree(cfg) else "crash:" + cfg["integrator"]
+            key = "C05-N5:load-crash-tree-flagged-particles" if uses_tree(cfg) else "crash:" + cfg["integrator"]
             c.violation(key, "save/load/continue of a reachable simulation crashes the process (status %d), cfg %s path %s" % (status, cfg_key(cfg), path),
                         {"cfg": cfg, "path": path, "steps": k})
     queue = list(chunks)
@@ -563,7 +563,7 @@ def run(c):
         if c.thorough:
             cases.append((cfg, paths[(i + c.seed + 2) % 4], 23))
     # randomised save points / continuation lengths / paths on top of the lattice (seeded)
-    nf = 3000 if c.thorough else 600
+    nf = 20000 if c.thorough else 2000
     for i in range(nf):
         cfg = dict(cfgs[c.rng.next() % len(cfgs)])
         cfg["save_after"] = c.rng.randint(0, 12)
